@@ -93,14 +93,27 @@ def run_flags(flags):
         eff_pdrf = idrf if pdrf is None else pdrf
         eff_pdmd = idmd if pdmd is None else pdmd
         nothing = not (idrf or idmd or eff_pdrf or eff_pdmd)
-        times = [None, TS * 1000 - 1, TS * 1000, TS * 1000 + 1, TS * 1000 + 250, TS * 1000 + 251]
+        times = [None, TS * 1000 - 1, TS * 1000, TS * 1000 + 0.4, TS * 1000 + 1, TS * 1000 + 250, TS * 1000 + 250.999, TS * 1000 + 251]
+        import datetime as _dt
+
+        other_tz = _dt.timezone(_dt.timedelta(hours=-9, minutes=-30))
         for s, e in itertools.product(times, repeat=2):
             if s is not None and e is not None and e < s:
                 continue
             kw = dict(include_drf=idrf, include_dmd=idmd, include_drf_properties=pdrf, include_dmd_properties=pdmd,
                       starttime=T.from_ms(s) if s is not None else None, endtime=T.from_ms(e) if e is not None else None)
+            # the same instants as naive (documented: UTC) or other-zone aware datetimes for the handler;
+            # the listing oracle below always receives the UTC-aware form
+            form = (times.index(s) + 2 * times.index(e)) % 3
+            hkw = dict(kw)
+            for key_ in ("starttime", "endtime"):
+                if hkw[key_] is not None:
+                    if form == 1:
+                        hkw[key_] = hkw[key_].replace(tzinfo=None)
+                    elif form == 2:
+                        hkw[key_] = hkw[key_].astimezone(other_tz)
             try:
-                h = Rec(**kw)
+                h = Rec(**hkw)
                 if nothing:
                     bad({"class": "no_file_type_accepted"}, "handler constructed although no file type is selected")
                     continue
